@@ -84,22 +84,19 @@ def timing(tier):
     if not ok: return None, 'release harness does not build'
     best = {}
     for n in sizes:
-        # one harness run per size, smallest first: a parser that is not linear shows up (or runs out of its budget) at the first size it cannot take
-        cases = [dump([p, str(n), k]) for (p, k) in probes for _ in range(3)]
-        budget = 300
-        try:
-            p = subprocess.run([B.harness_bin(True)], input='\n'.join(cases) + '\n', stdout=subprocess.PIPE, stderr=subprocess.PIPE, text=True, timeout=budget)
-            stdout = p.stdout
-        except subprocess.TimeoutExpired as ex:
-            stdout = ex.stdout.decode() if isinstance(ex.stdout, bytes) else (ex.stdout or '')
-            done = [l for l in stdout.split('\n') if '\t' in l]
-            stuck = cases[len(done)] if len(done) < len(cases) else cases[-1]
-            return None, ('SLOW', stuck, 'the release build needs more than %d s for the %d-byte timing probes (15 shapes, 3 runs each); it was working on %s' % (budget, n, stuck))
-        for line in stdout.split('\n'):
-            if '\t' not in line: continue
-            c, o = line.split('\t'); pc = parse(c); po = parse(o) if o.startswith('(ns') else None
-            if po is None: return None, 'timing probe failed: %s -> %s' % (c, o)
-            key = (pc[0], pc[2], int(pc[1])); best[key] = min(best.get(key, 1 << 62), int(po[1]))
+        # one harness run per size and probe, smallest size first: a parser that is not linear shows up (or runs out of its budget) at the
+        # first size it cannot take, and the probe it was given is the replay
+        for (p_, k) in probes:
+            case = dump([p_, str(n), k]); budget = 60
+            try:
+                p = subprocess.run([B.harness_bin(True)], input='\n'.join([case] * 3) + '\n', stdout=subprocess.PIPE, stderr=subprocess.PIPE, text=True, timeout=budget)
+            except subprocess.TimeoutExpired:
+                return None, ('SLOW', case, 'the release build needs more than %d s for three runs of the probe %s (the %d-byte input of shape `%s`)' % (budget, case, n, k))
+            for line in p.stdout.split('\n'):
+                if '\t' not in line: continue
+                c, o = line.split('\t'); pc = parse(c); po = parse(o) if o.startswith('(ns') else None
+                if po is None: return None, 'timing probe failed: %s -> %s' % (c, o)
+                key = (pc[0], pc[2], int(pc[1])); best[key] = min(best.get(key, 1 << 62), int(po[1]))
     table = {}; worst = 0
     for (p_, k) in probes:
         row = [best[(p_, k, n)] for n in sizes]
